@@ -494,3 +494,22 @@ def run(model, col, tier, share=True):
                     ob.detail = f"[{ob.rule}] " + (ob.detail or "") if hasattr(ob, "detail") else None
                     ob.rule = "R03.7"
                     col.obligations.append(ob)
+        # the function that a call names is the one the linker put in the program: its table is merged with a duplicate test
+        # (= R16.3/R16.4); and the operands a call carries are rewired like every other operand when a producer is replaced
+        # (= R02.1, CallInstruction rows)
+        from . import c16, c02
+
+        sub = Collector("C16")
+        c16.run(model, sub, "quick")
+        for ob in sub.obligations:
+            if ob.rule in ("R16.3", "R16.4") and "Linker" in ob.construct:
+                ob.detail = f"[{ob.rule}] " + (ob.detail or "")
+                ob.rule = "R03.7"
+                col.obligations.append(ob)
+        sub = Collector("C02")
+        c02.check_operand_protocol(model, sub, "R02.1")
+        for ob in sub.obligations:
+            if "CallInstruction" in ob.construct:
+                ob.detail = f"[{ob.rule}] " + (ob.detail or "")
+                ob.rule = "R03.7"
+                col.obligations.append(ob)
